@@ -39,6 +39,11 @@ var htmlSlots = []slot{
 	{"img", "width"}, {"img", "height"}, {"img", "border"}, {"img", "hspace"}, {"img", "vspace"}, {"img", "align"}, {"img", "src"}, {"img", "alt"},
 	{"div", "align"}, {"a", "href"}, {"a", "id"}, {"a", "name"}, {"a", "lang"}, {"a", "style"}, {"input", "size"}, {"input", "type"}, {"input", "value"}, {"textarea", "rows"}, {"textarea", "cols"},
 	{"meta", "content"}, {"link", "href"}, {"link", "media"}, {"base", "href"}, {"style", "media"}, {"style", "type"},
+	// document metadata (utils/html.go GetHtmlMetadata): dates, names, attachments
+	{"metac", "content"}, {"metam", "content"}, {"metan", "name"}, {"linka", "href"}, {"linka", "title"},
+	// the other elements that carry presentational hints or are replaced (html/tree/style.go, html/boxes/html.go)
+	{"embed", "src"}, {"embed", "type"}, {"embed", "width"}, {"embed", "hspace"}, {"object", "data"}, {"object", "type"}, {"object", "height"}, {"object", "border"},
+	{"inputi", "width"}, {"inputi", "border"}, {"inputi", "vspace"}, {"th", "width"}, {"th", "height"}, {"th", "rowspan"},
 }
 
 const (
@@ -57,11 +62,52 @@ var htmlValues = []string{
 // otherwise be re-discovered (at the cost of a dead worker) in every pair.
 var hugeValues = map[string]bool{"99999999999": true, "9223372036854775807": true, "65535": true, "100000": true}
 
-const htmlSkeleton = `<html><head><meta name="keywords"{meta}><link rel="stylesheet"{link}><base{base}><style{style}>a{color:red}</style></head>` +
+// singleValues only appear in single deviations (every slot x every value): the long digit runs in
+// every shape in which a reader meets a number, and dates.
+var singleValues = append(longNumberValues(), htmlDateValues()...)
+
+// htmlDateValues: every valid form of a W3C date and, in the longest one, each numeric field
+// replaced by the two runs around MaxInt64 (the html-metadata family enumerates the grammar).
+func htmlDateValues() (out []string) {
+	for _, form := range dateForms {
+		var sb strings.Builder
+		for _, s := range form {
+			sb.WriteString(dateSegs[s].sep + dateSegs[s].digits)
+		}
+		out = append(out, sb.String())
+	}
+	long := dateForms[len(dateForms)-1]
+	for _, run := range []string{maxInt64, strings.Repeat("9", 19), strings.Repeat("9", 20)} {
+		for p, s := range long {
+			if dateSegs[s].digits == "" {
+				continue
+			}
+			var sb strings.Builder
+			for q, t := range long {
+				if q == p {
+					sb.WriteString(dateSegs[t].sep + run)
+				} else {
+					sb.WriteString(dateSegs[t].sep + dateSegs[t].digits)
+				}
+			}
+			out = append(out, sb.String())
+		}
+	}
+	return out
+}
+
+// allValues = htmlValues (used in single deviations and in pairs) ++ singleValues
+var allValues = append(append([]string{}, htmlValues...), singleValues...)
+
+// the runs that meet each other in the pairs of the table-structure slots
+var structLongValues = []string{maxInt64, minInt64, strings.Repeat("9", 20), "2147483648", "4294967296"}
+
+const htmlSkeleton = `<html><head><meta name="keywords"{meta}><link rel="stylesheet"{link}><base{base}><style{style}>a{color:red}</style>` +
+	`<meta name="dcterms.created"{metac}><meta name="dcterms.modified"{metam}><meta content="2011-04-21T23:00:00.45+01:00"{metan}><link rel="attachment"{linka}></head>` +
 	`<body{body}><table{table}><caption{caption}>k</caption><colgroup{colgroup}><col{col}></colgroup><colgroup{colgroup2}></colgroup>` +
 	`<tr{tr}><td{td1}>a</td><td{td2}>b</td></tr><tr><td{td3}>c</td><th{th}>d</th></tr></table>` +
 	`<ol{ol}><li{li}>e</li><li>f</li></ol><ul{ul}><li>g</li></ul><font{font}>h</font><hr{hr}><hr noshade{hrn}><img{img}>` +
-	`<div{div}>i</div><a{a}>j</a><input{input}><textarea{textarea}></textarea></body></html>`
+	`<div{div}>i</div><a{a}>j</a><input{input}><textarea{textarea}></textarea><embed{embed}><object{object}>o</object><input type="image"{inputi}></body></html>`
 
 type htmlFam struct {
 	cases [][2]int32 // (slot*V + value) for the first and second deviation; second = -1 for none
@@ -70,7 +116,8 @@ type htmlFam struct {
 
 func newHTMLFam(tier string) *htmlFam {
 	f := &htmlFam{batch: 96}
-	nv := int32(len(htmlValues))
+	nv := int32(len(allValues))  // radix of the encoding
+	nb := int32(len(htmlValues)) // the values that also appear in pairs
 	f.cases = append(f.cases, [2]int32{-1, -1})
 	for s := range htmlSlots {
 		for v := int32(0); v < nv; v++ {
@@ -88,7 +135,7 @@ func newHTMLFam(tier string) *htmlFam {
 			n := int32(nPairValues)
 			if tier == "thorough" {
 				if s2 < nStructSlots {
-					n = nv
+					n = nb
 				} else {
 					n = nPairValuesAll
 				}
@@ -104,7 +151,7 @@ func newHTMLFam(tier string) *htmlFam {
 		}
 	}
 	vi := func(v string) int32 {
-		for i, x := range htmlValues {
+		for i, x := range allValues {
 			if x == v {
 				return int32(i)
 			}
@@ -117,6 +164,22 @@ func newHTMLFam(tier string) *htmlFam {
 	} {
 		s1, s2 := vi2(hp[0]), vi2(hp[2])
 		f.cases = append(f.cases, [2]int32{s1*nv + vi(hp[1]), s2*nv + vi(hp[3])})
+	}
+	// the long runs in the table-structure slots, against a small span, no span and each other
+	for s1 := int32(0); s1 < nStructSlots; s1++ {
+		for s2 := int32(0); s2 < nStructSlots; s2++ {
+			if s1 == s2 {
+				continue
+			}
+			for _, v1 := range structLongValues {
+				for _, v2 := range []string{"2", "0", v1} {
+					if v2 == v1 && s2 < s1 {
+						continue // the same document as (s2, s1)
+					}
+					f.cases = append(f.cases, [2]int32{s1*nv + vi(v1), s2*nv + vi(v2)})
+				}
+			}
+		}
 	}
 	return f
 }
@@ -133,7 +196,7 @@ func (f *htmlFam) name() string  { return "html-attributes" }
 func (f *htmlFam) nunits() int64 { return (int64(len(f.cases)) + f.batch - 1) / f.batch }
 
 func (f *htmlFam) doc(c [2]int32) (doc string, tags []string, label string) {
-	nv := int32(len(htmlValues))
+	nv := int32(len(allValues))
 	set := map[string]string{}
 	for _, d := range c {
 		if d < 0 {
@@ -168,16 +231,17 @@ func (f *htmlFam) doc(c [2]int32) (doc string, tags []string, label string) {
 
 func noImage(url string, forcedMimeType string, orientation pr.SBoolFloat) images.Image { return nil }
 
-func buildBoxes(doc string) (root bo.Box, err error) {
+func buildBoxes(doc string) (root bo.Box, meta string, err error) {
 	h, err := tree.NewHTML(utils.InputString(doc), "", svgFetcher, "")
 	if err != nil {
-		return nil, err
+		return nil, "", err
 	}
+	meta = metadataKey(h.GetMetadata())
 	cs := make(counters.CounterStyle)
 	style := tree.GetAllComputedStyles(h, nil, true, nil, cs, nil, nil, true, nil)
 	tc := tree.NewTargetCollector()
 	var fn []bo.Box
-	return bo.BuildFormattingStructure(h.Root, style, bo.URLResolver{Fetch: h.UrlFetcher, FetchImage: noImage}, "", &tc, cs, &fn), nil
+	return bo.BuildFormattingStructure(h.Root, style, bo.URLResolver{Fetch: h.UrlFetcher, FetchImage: noImage}, "", &tc, cs, &fn), meta, nil
 }
 
 func countBoxes(b bo.Box) int {
@@ -201,9 +265,10 @@ func (f *htmlFam) run(u int64, ctx *engine.Ctx) {
 		desc := "boxes.BuildFormattingStructure|" + strings.Join(tags, "+") + "|" + label + " in " + doc
 		var root bo.Box
 		var err error
+		var meta string
 		n := 0
 		ok := ctx.GuardFail(desc, feats, func() {
-			root, err = buildBoxes(doc)
+			root, meta, err = buildBoxes(doc)
 			if root != nil {
 				n = countBoxes(root)
 			}
@@ -224,7 +289,7 @@ func (f *htmlFam) run(u int64, ctx *engine.Ctx) {
 		case err != nil:
 			ctx.Case(false, "error")
 		default:
-			ctx.Case(true, fmt.Sprint("boxes:", n))
+			ctx.Case(true, fmt.Sprint("boxes:", n, " ", meta))
 		}
 	}
 }
@@ -243,6 +308,7 @@ func (f *htmlFam) bounds() any {
 	for _, s := range htmlSlots {
 		sl = append(sl, s.elem+"."+s.attr)
 	}
-	return map[string]any{"slots": sl, "values": htmlValues, "documents": len(f.cases), "skeleton": htmlSkeleton,
-		"deviations": "0, 1 (every slot x every value) and 2 (quick: all pairs of the 10 table-structure slots over the first 14 values; thorough: those over every value, plus all pairs of all slots over the first 10 values); the huge values 65535, 100000, 99999999999, 9223372036854775807 appear in single deviations and in 8 hand-picked colspan/rowspan pairs only"}
+	return map[string]any{"slots": sl, "values": htmlValues, "single_deviation_values": map[string]any{"digit_runs": digitRuns, "number_shapes (N = each run)": numberShapes, "dates": htmlDateValues()},
+		"documents": len(f.cases), "skeleton": htmlSkeleton, "long_runs_in_table_structure_pairs": structLongValues,
+		"deviations": "0, 1 (every slot x every value and every single-deviation value) and 2 (quick: all pairs of the 10 table-structure slots over the first 14 values; thorough: those over every value, plus all pairs of all slots over the first 10 values); the huge values 65535, 100000, 99999999999, 9223372036854775807 appear in single deviations and in 8 hand-picked colspan/rowspan pairs only; the long runs of long_runs_in_table_structure_pairs appear in every ordered pair of table-structure slots against 2, 0 and themselves; every document goes through NewHTML, GetMetadata, GetAllComputedStyles and BuildFormattingStructure"}
 }
